@@ -222,8 +222,10 @@ _VALUES = ["v", "", "a$$b", "$$", "<x>", "%define a b", "#c", "(p)", "a  b",
            # ends a line of configuration text
            "first\x0csecond", "a\u2028b", "a\x85b c", "x\ry", "p\x0bq",
            "a\x1cb\x1dc\x1ed", "u\u2029v"]
-_KEYS = ["k", "K", "key-1", "a.b", "k", "zz", "a#b", "k/"]
-_HTOK = ["a", "A", "sec", "a/", "a>", "x/y", "b//", ">", "/"]
+_KEYS = ["k", "K", "key-1", "a.b", "k", "zz", "a#b", "k/", "\ufeffname",
+         "\ufeff\ufeffk", "\ufeff%import", "\ufeff<x>", "k$$", "$$k"]
+_HTOK = ["a", "A", "sec", "a/", "a>", "x/y", "b//", ">", "/", "$$", "x$$y",
+         "$$$$", "Joe$$", "$$usd"]
 
 
 def targeted_text(rng):
